@@ -23,7 +23,7 @@ def lib():
     return hexital, indicators, Candle, CandleManager, Hexital
 
 
-def sym_ohlcv(ctx, i, prefix="", zero_ok=False):
+def sym_ohlcv(ctx, i, prefix="", zero_ok=False, wellformed=True):
     """one well-formed candle's values: 0 < low <= open,close <= high <= 1e6, 0 <= volume <= 1e9
     (zero_ok: prices may be exactly 0 - for the properties that are not about price ratios)"""
     o = ctx.real(f"{prefix}o{i}", 0, PRICE_HI, lo_strict=not zero_ok)
@@ -31,16 +31,17 @@ def sym_ohlcv(ctx, i, prefix="", zero_ok=False):
     l = ctx.real(f"{prefix}l{i}", 0, PRICE_HI, lo_strict=not zero_ok)
     c = ctx.real(f"{prefix}c{i}", 0, PRICE_HI, lo_strict=not zero_ok)
     v = ctx.real(f"{prefix}v{i}", 0, VOL_HI)
-    ctx.assume((l <= o) & (l <= c) & (o <= h) & (c <= h))
+    if wellformed:
+        ctx.assume((l <= o) & (l <= c) & (o <= h) & (c <= h))
     return o, h, l, c, v
 
 
-def mk_candles(ctx, n, step=60, start=GRID0 + 60, prefix="", zero_ok=False):
+def mk_candles(ctx, n, step=60, start=GRID0 + 60, prefix="", zero_ok=False, wellformed=True):
     """n symbolic candles on a concrete regular time grid"""
     _, _, Candle, _, _ = lib()
     out = []
     for i in range(n):
-        o, h, l, c, v = sym_ohlcv(ctx, i, prefix, zero_ok)
+        o, h, l, c, v = sym_ohlcv(ctx, i, prefix, zero_ok, wellformed)
         out.append(Candle(o, h, l, c, v, timestamp=ctx.const_time(start + i * step)))
     return out
 
